@@ -83,7 +83,11 @@ class Gen:
 
     def do_hello(self, cid):
         c = self.open[cid]
-        self.bus_call(cid, "Hello")
+        if self.r.random() < 0.12:
+            # a Hello that names no interface is a Hello too (a missing INTERFACE matches any)
+            self.send(cid, method_call(self.serial(cid), BUS, BUS_PATH, None, "Hello"))
+        else:
+            self.bus_call(cid, "Hello")
         if not c["active"]:
             c["active"] = True
             c["unique"] = (":1.%d" % self.next_unique).encode()
